@@ -197,6 +197,7 @@ def run_property(prop, tier, seed):
     out_of_reach = []
     for target in roots:
         c = R.contracts[target]
+        ieee_default = eng.ieee_checks
         try:
             z3_before = len(eng.obligations)
             stats.append(eng.verify_contract(c))
@@ -205,6 +206,8 @@ def run_property(prop, tier, seed):
             del eng.obligations[z3_before:]
             eng.cur_root_target_inline = None
             eng.cur_inline_callees = ()
+        finally:
+            eng.ieee_checks = ieee_default
     # lemmas
     for lp, name, fn in R.lemmas:
         if lp == prop:
